@@ -6,6 +6,7 @@ drv_files ops (not verified; exercised on every line):
   files upload   <chunk> <filter> <T|F ignore_invalid> <tree>
   files download <chunk> <filter> <T|F ignore_invalid> <tree>
   files copy     <chunk> <hex>
+  files over <upload|download> <chunk> <filter> <T|F> <dst: - | tree> <src tree>   (destination may exist)
 
 tree:   F<hex> regular file · X neither file nor directory · D( n<hexname> <tree> ... )
 filter: N none · S<hex> reject names ending with · P<hex> reject names starting with · A reject all
@@ -64,7 +65,23 @@ def showOutcome : Except Err (Option Tree) → String
   | .ok none => "ok -"
   | .error e => "err " ++ e.name
 
+/-- `files over <upload|download> <chunk> <filter> <T|F> <dst: - | tree> <src tree>`: one step of a history -/
+def filesOver (chunk filt ii : String) (toks : List String) : String :=
+  let dstAndRest : Option (Option Tree × List String) :=
+    match toks with
+    | "-" :: rest => some (none, rest)
+    | _ => (parseTree toks).map (fun (t, r) => (some t, r))
+  match parseNatChars chunk.toList, parseFilter filt, dstAndRest with
+  | some c, some f, some (dst, rest) =>
+    match parseTree rest, ii with
+    | some (src, []), "T" => showOutcome (uploadOver c f true src dst)
+    | some (src, []), "F" => showOutcome (uploadOver c f false src dst)
+    | _, _ => "bad-op"
+  | _, _, _ => "bad-op"
+
 def filesOp : List String → String
+  | "over" :: "upload" :: chunk :: filt :: ii :: toks => filesOver chunk filt ii toks
+  | "over" :: "download" :: chunk :: filt :: ii :: toks => filesOver chunk filt ii toks
   | kind :: chunk :: filt :: ii :: toks =>
     match parseNatChars chunk.toList, parseFilter filt, parseTree toks with
     | some c, some f, some (t, []) =>
